@@ -141,6 +141,55 @@ Proof.
     rewrite has_char_cons, E, Ha. reflexivity.
 Qed.
 
+Lemma cut_at_app_skip c u v : has_char c u = false ->
+  cut_at c (u ++ v) = match cut_at c v with Some (a, b) => Some (u ++ a, b) | None => None end.
+Proof.
+  intros H. induction u as [|x u IH]; cbn [app cut_at].
+  - destruct (cut_at c v) as [[a b]|]; reflexivity.
+  - rewrite has_char_cons in H. apply orb_false_iff in H. destruct H as [Hx Hu].
+    rewrite Hx, (IH Hu). destruct (cut_at c v) as [[a b]|]; reflexivity.
+Qed.
+
+(* ---- rsplit with maxsplit 1 / the last occurrence ---- *)
+
+Lemma rsplit_max1 c s :
+  rsplit_char_max c s 1 = match rcut_at c s with Some (a, b) => [a; b] | None => [s] end.
+Proof.
+  unfold rsplit_char_max, rcut_at, split_char_max. rewrite split_max1_aux. cbn [rev app].
+  destruct (cut_at c (rev s)) as [[a b]|]; cbn [rev app map]; [reflexivity|].
+  rewrite rev_involutive. reflexivity.
+Qed.
+
+Lemma rcut_at_has c s : has_char c s = match rcut_at c s with Some _ => true | None => false end.
+Proof.
+  unfold rcut_at. rewrite <- has_char_rev, cut_at_has.
+  destruct (cut_at c (rev s)) as [[a b]|]; reflexivity.
+Qed.
+
+Lemma rcut_at_spec c s a b : rcut_at c s = Some (a, b) -> s = a ++ c :: b /\ has_char c b = false.
+Proof.
+  unfold rcut_at. destruct (cut_at c (rev s)) as [[a' b']|] eqn:E; [|discriminate].
+  intros H. inversion H; subst. destruct (cut_at_spec _ _ _ _ E) as [Hs Ha].
+  split; [|rewrite has_char_rev; exact Ha].
+  rewrite <- (rev_involutive s), Hs, rev_app_distr. cbn [rev]. rewrite <- app_assoc. reflexivity.
+Qed.
+
+(* a tail without the separator does not move the last occurrence *)
+Lemma rcut_at_app_tail c x y : has_char c y = false ->
+  rcut_at c (x ++ y) = match rcut_at c x with Some (a, b) => Some (a, b ++ y) | None => None end.
+Proof.
+  intros H. unfold rcut_at. rewrite rev_app_distr, cut_at_app_skip by (rewrite has_char_rev; exact H).
+  destruct (cut_at c (rev x)) as [[a b]|]; [|reflexivity].
+  rewrite rev_app_distr, rev_involutive. reflexivity.
+Qed.
+
+Lemma rcut_at_last c a b : has_char c b = false -> rcut_at c (a ++ c :: b) = Some (a, b).
+Proof.
+  intros H. change (a ++ c :: b) with (a ++ [c] ++ b). rewrite app_assoc, rcut_at_app_tail by exact H.
+  unfold rcut_at. rewrite rev_app_distr. cbn [rev app cut_at]. rewrite N.eqb_refl.
+  rewrite rev_involutive. reflexivity.
+Qed.
+
 (* ---- digits ---- *)
 Lemma digits_no_char c s : all_ascii_digits s = true -> (c < 48 \/ 57 < c) -> has_char c s = false.
 Proof.
